@@ -16,7 +16,7 @@ theorem default_ownership (c : Cfg) :
        match c.access with
         | some a => a
         | none => if c.hasAccess then (if c.name.isEmpty then [[Ch.gt]] else [c.name, c.name ++ [Ch.dot, Ch.gt]]) else []) := by
-  simp only [ownership, defaultPatterns]
+  simp only [ownership, defaultPatterns]; rfl
 
 /-- **no subscription is redundant**: no subscribed subject is matched by a different
 subscribed subject (for *every* ownership configuration, valid or not) -/
@@ -75,7 +75,7 @@ theorem default_ok_noname : ∀ p ∈ defaultPatterns [], ownedOk p := by
 /-- on well-formed subscription subjects the library's `Matches` is NATS subject matching -/
 theorem matches_is_nats (ps ss : List Pattern.Tok) (hp : Pattern.wfPat ps = true) (hs : Pattern.wfPat ss = true)
     (hpt : Pattern.tagsOf ps = []) (hst : Pattern.tagsOf ss = []) (hne : ps ≠ []) (hne' : ss ≠ []) :
-    Pattern.matches (Pattern.render ps) (Pattern.render ss) = covers (Pattern.render ps) (Pattern.render ss) := by
+    Pattern.matches (Pattern.render ps) (Pattern.render ss) = Subs.covers (Pattern.render ps) (Pattern.render ss) := by
   sorry
 
 /-! ## non-vacuity -/
